@@ -137,6 +137,20 @@ CLAIMS = {
         technique="randomized schedules of the real code in virtual time, traces validated by TLC against a TLA+ monitor specification",
         design_ref='6/C10',
     ),
+    "C14": dict(
+        engine="sequential-specs",
+        level="model_checking",
+        text="specs/pool/PoolLock.tla models processes x {upload, download, delete, download_link, upload_link} on one pool file with one action "
+             "per wrapped system call (lock attempt/sleep/give up, compare, copy|unlink|symlink, unlock), SIGKILL at every point and a failing "
+             "copy; TLC checks mutual exclusion, lock release after crash/exception, timeout-raises-without-copy, exact copies and link safety "
+             "exhaustively for 2-3 processes over all initial contents. TLC behaviours are replayed with real processes, real fcntl locks and "
+             "real SIGKILL on a scratch directory, the children being stopped at each wrapped call so that the interleaving is TLC's; lock "
+             "holder, contents and link status are compared after every step and critical-section overlap is checked on the observations",
+        note="interleavings are forced at system-call granularity through wrappers on pool.fcntl/time/shutil/os and TransferOps.compare_*; "
+             "remote (ssh) transfers take no lock in the code and are out of scope; fault enumeration is part of the model",
+        technique="TLA+ spec + TLC exhaustive (crash/fault at every step), behaviours replayed with real processes and locks",
+        design_ref="6/C14",
+    ),
 }
 
 NOT_YET = "machinery for this property is not built yet in this revision (see DESIGN.md section 9 build order)"
